@@ -304,7 +304,7 @@ def main(argv=None):
                       and not engine_errors)
     mod = ded["module"] if ded else None
     bounded_only = getattr(mod, "BOUNDED_ONLY_CLAUSES", None) if mod else None
-    level = "proof" if (proof_complete and not bounded_only) else "other"
+    level = "proof" if (proof_complete and not bounded_only and not known_hits) else "other"
     explanation = []
     if ded is not None:
         explanation.append(
@@ -346,8 +346,9 @@ def main(argv=None):
         "wall_s": round(time.time() - t0, 2),
         "violations": len(violations),
     }
-    os.makedirs(os.path.join(VERIF, "evidence"), exist_ok=True)
-    with open(os.path.join(VERIF, "evidence", f"{pid}.json"), "w") as f:
+    evdir = os.environ.get("VERIF_EVIDENCE_DIR") or os.path.join(VERIF, "evidence")
+    os.makedirs(evdir, exist_ok=True)
+    with open(os.path.join(evdir, f"{pid}.json"), "w") as f:
         json.dump(ev, f, indent=1, default=str)
     if args.verbose and ded is not None:
         for oid, e in sorted(ded["agg"].items()):
